@@ -69,4 +69,5 @@ def account(check, results, backend='GROUND'):
     for name, ok, detail in results:
         check.count(backend, 'discharged' if ok else 'failed', 0.0, name)
         if not ok:
-            check.violation(name, {'detail': detail, 'solver_output': 'ground evaluation is false: ' + str(detail)}, False)
+            # evaluated on the real module constants / through the real functions: the witness IS a native observation
+            check.violation(name, {'witness': detail, 'solver_output': 'ground evaluation on the real code is false: ' + str(detail)}, True)
